@@ -264,6 +264,21 @@ impl Case {
 						if got != want {
 							return Err(format!("handle {h}: call `{n}` reached {got}, bound is {want}"));
 						}
+						// the other look-ups of the same table must agree with `method()` and the map
+						let bound = map.contains_key(*n);
+						let ms = slot.methods();
+						match ms.method_with_name(n) {
+							Some((k, _)) if bound && k == *n => {}
+							None if !bound => {}
+							other => return Err(format!("handle {h}: method_with_name(`{n}`) = {:?}, bound = {bound}", other.map(|(k, _)| k))),
+						}
+						if ms.method(n).is_some() != bound {
+							return Err(format!("handle {h}: method(`{n}`).is_some() = {}, bound = {bound}", !bound));
+						}
+						let mut probe = ms.clone();
+						if probe.verify_method_name(n).is_err() != bound {
+							return Err(format!("handle {h}: verify_method_name(`{n}`) disagrees with the table: bound = {bound}"));
+						}
 					}
 				}
 				_ => return Err(format!("handle {h}: liveness differs")),
@@ -371,8 +386,9 @@ impl Case {
 						"ok".to_string()
 					};
 					let Some(Slot::Module(m)) = self.slots[h].as_mut() else { unreachable!() };
-					let r = m
-						.register_subscription(sub, "notif", unsub, move |params, pending, _, _| async move {
+					// the two ways to register a subscription take turns (the registry must not care)
+					let r = if (tag + sub.len() as u64) % 2 == 0 {
+						m.register_subscription(sub, "notif", unsub, move |params, pending, _, _| async move {
 							let hold = params.one::<u64>().is_ok();
 							if let Ok(sink) = pending.accept().await {
 								if hold {
@@ -382,7 +398,23 @@ impl Case {
 								}
 							}
 						})
-						.map(|_| ());
+						.map(|_| ())
+					} else {
+						out.count("regsub_raw");
+						m.register_subscription_raw(sub, "notif", unsub, move |params, pending, _, _| {
+							let hold = params.one::<u64>().is_ok();
+							tokio::spawn(async move {
+								if let Ok(sink) = pending.accept().await {
+									if hold {
+										futures_util::future::pending::<()>().await;
+									} else {
+										let _ = sink.send(serde_json::value::to_raw_value(&tag).unwrap()).await;
+									}
+								}
+							});
+						})
+						.map(|_| ())
+					};
 					if r.is_ok() {
 						let cb = m.method(sub).cloned().expect("just registered");
 						let _ = self.side.verify_and_insert(intern(&format!("t{tag}")), cb);
